@@ -105,6 +105,9 @@ type ledgerEntry struct {
 	// SchemaSlots: decoder (or encoder) name -> slot tokens that must occur in its CURRENT E2 schema, e.g.
 	// {"dhcpv6.RelayMessageFromBytes": ["16:PeerAddr"]}: the field is filled by a plain 16-byte read
 	SchemaSlots map[string][]string `json:"schema_slots,omitempty"`
+	// RejectsPresent: decoder name -> substrings each of which must occur in some entry of its CURRENT rejection census
+	// (E8), e.g. {"dhcpv6.RelayMessageFromBytes": ["Read8()-13!=0"]}: the decoder still refuses other message types
+	RejectsPresent map[string][]string `json:"rejects_present,omitempty"`
 }
 
 type ledgerFile struct {
@@ -327,6 +330,8 @@ type e4Engine struct {
 	funcs        []*ssa.Function
 	rule         string // clause id prefix, e.g. C03-K1
 	ledgerPrefix string // prefix under which ledger keys are stored (defaults to rule)
+	nnDepth      int
+	census       map[string][]string
 }
 
 func newE4(c *Ctx, rule string) (*e4Engine, error) {
@@ -510,9 +515,27 @@ func (e *e4Engine) open(in ssa.Instruction, key, detail string) {
 		if len(le.SchemaSlots) > 0 {
 			missing = append(missing, e.schemaSlotsMissing(le.SchemaSlots)...)
 		}
+		if len(le.RejectsPresent) > 0 {
+			if e.census == nil {
+				e.census = fullCensus(e.c.P)
+			}
+			for fn, subs := range le.RejectsPresent {
+				for _, sub := range subs {
+					found := false
+					for _, ent := range e.census[fn] {
+						if strings.Contains(ent, sub) {
+							found = true
+						}
+					}
+					if !found {
+						missing = append(missing, "rejection `"+sub+"` of "+fn)
+					}
+				}
+			}
+		}
 		if len(missing) == 0 {
 			by := "ledger"
-			if le.Assume || len(le.Requires)+len(le.CallersAny)+le.CallersParamNonNeg+len(le.SchemaSlots) == 0 {
+			if le.Assume || len(le.Requires)+len(le.CallersAny)+le.CallersParamNonNeg+len(le.SchemaSlots)+len(le.RejectsPresent) == 0 {
 				by = "ledger (reasoned, no machine-checked fact)"
 			} else {
 				by = "ledger + guard facts " + strings.Join(le.Requires, " ∧ ")
@@ -521,6 +544,9 @@ func (e *e4Engine) open(in ssa.Instruction, key, detail string) {
 				}
 				if len(le.SchemaSlots) > 0 {
 					by += fmt.Sprintf(" + wire-schema slots %v present in the current extraction", le.SchemaSlots)
+				}
+				if len(le.RejectsPresent) > 0 {
+					by += fmt.Sprintf(" + rejections %v present in the current census", le.RejectsPresent)
 				}
 				if le.CallersParamNonNeg > 0 {
 					by += fmt.Sprintf(" + every call site passes a non-negative value for parameter %d (constant, or the caller's own such parameter + constant)", le.CallersParamNonNeg)
@@ -815,6 +841,12 @@ func (e *e4Engine) nonNegative(v ssa.Value) bool {
 	if v == nil {
 		return true
 	}
+	// φ cycles (two loop-carried values feeding each other) must not recurse without bound
+	if e.nnDepth > 24 {
+		return false
+	}
+	e.nnDepth++
+	defer func() { e.nnDepth-- }()
 	switch x := v.(type) {
 	case *ssa.Const:
 		k, ok := intConst(x)
